@@ -1,16 +1,10 @@
 ---------------------------- MODULE Eval_Inventory ----------------------------
 (* C06, class inventory: what the generated classes must expose for a language. *)
-EXTENDS Langs, Json
+EXTENDS Langs, LangViews, Json
 VARIABLE k
 Init == k = 0
 Next == k < Len(Library) /\ k' = k + 1
 Spec == Init /\ [][Next]_k
-Inventory(L) ==
-  [ types   |-> { [name |-> T,
-                   defs |-> { [d |-> d, dflt |-> DefenseDefault(L, T, d)] : d \in Defenses(L, T) },
-                   nondef |-> StepNames(L, T) \ Defenses(L, T)] : T \in AssetNames(L) },
-    classes |-> { [cls |-> i, lf |-> L.assocs[i].lf, rf |-> L.assocs[i].rf, lt |-> L.assocs[i].lt, rt |-> L.assocs[i].rt,
-                   shared |-> NameShared(L, i), base |-> L.assocs[i].name] : i \in DOMAIN L.assocs } ]
 Emit == k > 0 => PrintT(ToJson([kind |-> "inventory", name |-> LibraryNames[k], lang |-> Library[k], inv |-> Inventory(Library[k])]))
 \* spec-level sanity: association classes are pairwise distinguishable
 Distinguishable == \A n \in DOMAIN Library : \A i, j \in DOMAIN Library[n].assocs :
